@@ -752,7 +752,16 @@ def valid(subject, cfg):
 
 def enum_configs(subject, k):
     k = max(k, getattr(subject, "min_k", 0))  # small subjects are enumerated completely in every tier
-    return [c for c in configs(subject, k) if valid(subject, c)]
+    out = [c for c in configs(subject, k) if valid(subject, c)]
+    if k < 2 and "tb" in subject.axes and "mins" in subject.axes:
+        # one pair of deviations that is known to interact is always included: linear tails together with each non-default
+        # minimum bin size (the tail code path hands the minimum sizes on to the inner spline)
+        for mins in subject.axes["mins"][1:]:
+            c = dict(subject.default())
+            c["tb"], c["mins"] = 2.5, mins
+            if valid(subject, c) and c not in out:
+                out.append(c)
+    return out
 
 
 SUBJECTS["MultiscaleCompositeTransform"].min_k = 3
